@@ -457,6 +457,10 @@ func init() {
 									safe = true
 								}
 							}
+							// the path tested the component for nil and took the non-nil branch
+							if v, ok := assumed(p)["url."+e.Field+" == nil"]; ok && !v {
+								safe = true
+							}
 							if !safe {
 								deref[p.State+"|"+e.Field] = p
 							}
@@ -815,7 +819,7 @@ func init() {
 	register(&Rule{
 		Name:  "SM-guards",
 		Doc:   "decisions of the state machine (what a setter refuses / fails / writes; which path operations end a segment), read off the extracted paths as a function of the conditions they evaluate, equal the standard's formulas on every assignment of the atoms (truth table; semantic, independent of how the conditions are written)",
-		Props: []string{"C05", "C04", "C03", "C01", "C18"},
+		Props: []string{"C05", "C04", "C03", "C01", "C18", "C19"},
 		Floor: 3,
 		Run: func(c *Ctx, s *core.Sink) {
 			m := BuildSM(c)
